@@ -24,11 +24,16 @@ scipy.linalg.fractional_matrix_power).  This ties, for EVERY function, option co
    captured normaliser S: pgm_model_refines), `c19_measure` (Born probability, prob > tol branch, post state, completeness check);
  * the hypotheses of the theorems to the LAPACK factors the code actually used (V, Q unitary ...; U^H U = 1, s > 0, N = U diag(s) U^H; S = S^H >= 0,
    S P S = 1) - counted and noted, never a verdict.
+Hardening pass (argument forms, explicit tolerances).  The object a generator returns is a function of the argument VALUES and the seed; the kinds
+stream therefore spells most calls with NumPy scalars / keywords / omitted defaults (`call_args`, `pick_form`) - predicates and model relations are
+evaluated on that spelling and the object must be bitwise the one of the builtin spelling.  `measure` gets unlikely outcomes together with an explicit
+`tol` above their probability (`gen_low_prob_case`): tol selects the post-measurement branch only, the probabilities stay the Born values and sum to one.
 A deviation of the code from a *model* (draw program, formula) that the property's own predicates do not see is a broken correspondence
 (common.CorrespondenceBroken semantics: the run goes on; exit 1 with no-failing-input-found when no concrete violation exists).
 """
 from __future__ import annotations
 
+import inspect
 import itertools
 import warnings
 from fractions import Fraction
@@ -50,14 +55,24 @@ RULE = ("generators: every (function, option combination) for dimensions 1..6 - 
         "and list dim, Schmidt bound 0..min(dim), num_inputs 1..3 x num_outputs 1..4 (quick: a seeded subset of the larger grids) - each with seeds drawn from the "
         "run's generator; non-trivial = dimension >= 2; histories: seeded random interleavings (length 5..20) of seeded calls (menu of 12 non-degenerate "
         "(generator, args) pairs, seeds from a pool of 3 so that repeats occur), unseeded calls, np.random.seed, np.random.rand, default_rng(s).random(), "
-        "default_rng().random(); non-trivial = contains a repeated seeded call separated by a global operation; ensembles: 2..6 states, dimension 2..4, pure "
+        "default_rng().random() (menu since grown to 31 entries); non-trivial = contains a repeated seeded call separated by a global operation; ensembles: 2..6 states, dimension 2..4, pure "
         "(1-D / column) or mixed, dyadic priors (zeros allowed), spanning with lambda_min(sum p_i rho_i) >= 2e-2, plus non-spanning ones (observed only); "
         "measure: density states of dimension 2..5 x {single operator, list / tuple of Kraus operators (square, rectangular, projective, sqrt-POVM), incomplete "
         "sets, zero-probability outcomes} x state_update; is_povm: valid sets and sets violating one condition by >= 1e-3; distinct = hash of the case description. "
         "Presentation: the arrays handed to pretty_good_measurement / pretty_bad_measurement (each state of the list independently), measure (state, single operator or "
         "each operator of the list / tuple) and is_povm (each operator) are re-presentations of the same values determined by the case (C / Fortran / strided / "
         "permuted-stride layout; zero imaginary part also as float64, integer values also as int64), so lists mix dtypes and layouts; after every call the arguments "
-        "(arrays, list / tuple objects, elements, the probability list) are compared with a deep snapshot")
+        "(arrays, list / tuple objects, elements, the probability list) are compared with a deep snapshot. "
+        "Argument forms (hardening pass): three quarters of the generator calls of the kinds stream (form determined by the case) spell their arguments differently from "
+        "`f(builtin values by position, seed=s)`: optional integer / boolean parameters, the seed, the entries of a list dim and - where the code does not test "
+        "isinstance(dim, int) - a scalar dim as NumPy scalars (np.int64 / int32 / intp, np.bool_, seeds np.int64 / uint32 / uint64), a list dim as tuple or integer ndarray, "
+        "trailing parameters by keyword, the seed by position, parameters equal to their default left out; all predicates and model relations are evaluated on the object "
+        "of that spelling, and a seeded call must return bitwise the object of the builtin spelling; 7 menu entries of the histories are spelled with NumPy scalars; "
+        "the priors of pretty_good / pretty_bad_measurement arrive as list of float / list of np.float64 / float64 ndarray / tuple, by position or keyword; "
+        "measure: tol as float / np.float64 / np.float32 and state_update as bool / np.bool_, by keyword or position; low-probability family: complete measurements "
+        "(rank-one / coarse-grained projectors of a rotated eigenbasis, projectors followed by outcome-dependent unitaries, single projector) on states with eigenvalues from "
+        "{4e-4, 1e-5, 3e-7, 2e-9, 3e-11}, tol from {default, 1e-8, 1e-6, 1e-3, 1e-2, 0.3} chosen a factor >= 2 away from every outcome probability and (non-trivial =) "
+        "above at least one probability >= 1e-11, plus all outcomes below tol (maximally mixed two-qubit state, tol 0.3)")
 ASSUMPTIONS = [
     "recording proxy: the generator functions reach NumPy's random machinery through the attribute np.random.default_rng and LAPACK through np.linalg.qr / svd / eigh, "
     "scipy.linalg.fractional_matrix_power at call time (patched for the duration of one call); code that binds these at import time would show as a broken "
@@ -80,6 +95,13 @@ ASSUMPTIONS = [
     "re-drawn normaliser sum_y A_y^T A_y (D^-1/2 amplifies the rounding of the SVD); anything larger, or not explained that way, is a violation",
     "measure interprets every operator as a Kraus operator K (probability tr(K rho K^dagger)); POVM elements are therefore supplied as projectors or through their "
     "square roots",
+    "measure: the `tol` argument decides whether a post-measurement state is produced (documented: p <= tol gives a zero matrix) and the atol of the completeness test; "
+    "the reported probabilities are the Born values for every tol (measure_model_born is stated for all tol) and are compared with tr(K^dagger K rho) to 1e-12 x max(1, |K|max^2) "
+    "(TOL_BORN_TIGHT: direct float algebra on entries <= 1) in addition to the 1e-10 of the first build; a post-measurement state is demanded for p > 1.001 tol (and p > 1e-6), a zero "
+    "matrix for p < 0.999 tol",
+    "a scalar dim spelled as a NumPy integer is generated with a verdict only for the functions / branches that do not test isinstance(dim, int); for random_unitary, "
+    "random_orthonormal_basis, random_density_matrix(bures) and the Schmidt branch of random_state_vector the tree as read raises IndexError on it: counted in observe_np_dim "
+    "and reported as a candidate finding (verdict as soon as a record with matcher c19-numpy-integer-scalar-dim exists)",
 ]
 
 TOL_GEN = 1e-10
@@ -88,6 +110,7 @@ TOL_PSD = 1e-12
 RANK_EPS = 1e-9
 TOL_PGM = 1e-9
 TOL_MEAS = 1e-10
+TOL_BORN_TIGHT = 1e-12
 
 
 # ------------------------------------------------------------------------------------------------ helpers
@@ -240,6 +263,127 @@ def broken(ctx, key, msg):
         ctx.broken.append(f"{key}: {msg}")
 
 
+# ---- argument forms (hardening pass: NumPy scalars, keywords, omitted defaults) ------------------------------------------------
+# The object a generator returns is a function of (generator, argument VALUES, seed) - draws_are_function_of_seed /
+# seeded_output_history_independent; the Lean draw program `Toq.Rand.trace` takes the values as naturals.  How the caller spells a value
+# (builtin int / bool, NumPy scalar such as the elements of np.arange, by position or by keyword, default left out) is not part of it.
+# A form is None (builtin values, by position, seed by keyword: the form of the first build) or a JSON-able dict
+#   "np":   {parameter: NumPy type name}   the value is converted (a list dim element by element; "tuple" / "ndarray" convert the container)
+#   "kw":   n                              the last n parameters before `seed` are passed by keyword
+#   "omit": true                           trailing parameters before `seed` whose value is the declared default are left out
+#   "seed": "kw" | "pos" | "omit"          seed by keyword / by position (only when everything before it is positional) / left out (seed None)
+NP_INTS = ("int64", "int32", "intp")
+NP_SEEDS = ("int64", "uint32", "uint64")
+
+
+_SIG = {}
+
+
+def _params(fn):
+    if fn not in _SIG:
+        _SIG[fn] = list(inspect.signature(fn).parameters.values())
+    return _SIG[fn]
+
+
+def _conv(t, v):
+    if t is None or v is None:
+        return v
+    if t == "tuple":
+        return tuple(v)
+    if t == "ndarray":
+        return np.array(v)
+    f = getattr(np, t)
+    return [f(x) for x in v] if isinstance(v, list) else f(v)
+
+
+def _is_default(v, default):
+    return default is not inspect.Parameter.empty and ((v is None and default is None) or (type(v) is type(default) and v == default))
+
+
+def call_args(fn, pos, seed, form):
+    """(positional, keyword) arguments of the call `fn(*pos, seed=seed)` spelled in the argument form `form`"""
+    if not form:
+        return list(pos), {"seed": seed}
+    params = _params(fn)
+    names = [q.name for q in params]
+    if names[-1] != "seed" or len(pos) != len(names) - 1:
+        raise ValueError(f"call_args: {fn.__name__}{tuple(names)} does not fit {pos}")
+    conv = form.get("np", {})
+    vals = [_conv(conv.get(n), v) for n, v in zip(names, pos)]
+    n = len(vals)
+    if form.get("omit"):
+        while n > 0 and _is_default(pos[n - 1], params[n - 1].default):
+            n -= 1
+    nkw = min(int(form.get("kw", 0)), n)
+    a = vals[:n - nkw]
+    k = {names[i]: vals[i] for i in range(n - nkw, n)}
+    sv = _conv(conv.get("seed"), seed)
+    mode = form.get("seed", "kw")
+    if mode == "pos" and n == len(vals) and nkw == 0:
+        a.append(sv)
+    elif mode == "omit" and seed is None:
+        pass
+    else:
+        k["seed"] = sv
+    return a, k
+
+
+def resolve_form(form, fname, fn, pos, seed, np_required=()):
+    return pick_form(fname, fn, pos, seed, np_required) if form == "auto" else (form or None)
+
+
+def call_text(fname, fn, pos, seed, form, plain):
+    return show_call(fname, *call_args(fn, pos, seed, form)) if form else plain
+
+
+def show_call(fname, a, k):
+    return f"{fname}({', '.join([repr(x) for x in a] + [f'{n}={v!r}' for n, v in k.items()])})"
+
+
+def pick_form(fname, fn, pos, seed, np_required=()):
+    """the argument form of one generator call of the stream: determined by the case alone (so that a replay sees it and the data
+    stream ctx.rng is not disturbed).  Optional parameters (those with a declared default) and `seed` are eligible for every
+    spelling; required dimension parameters only where named in `np_required` (see observe_np_dim for the others)."""
+    prng = case_rng("c19/form", fname, pos, seed)
+    if prng.integers(4) == 0:
+        return None
+    params = {q.name: q for q in _params(fn)}
+    names = list(params)[:-1]
+    np_ = {}
+    nopt = 0
+    for n, v in zip(names, pos):
+        optional = params[n].default is not inspect.Parameter.empty
+        nopt += optional
+        if v is None or isinstance(v, str):
+            continue
+        if isinstance(v, bool):
+            if prng.integers(2):
+                np_[n] = "bool_"
+        elif isinstance(v, int):
+            if (optional or n in np_required) and prng.integers(3):
+                np_[n] = str(prng.choice(NP_INTS))
+        elif isinstance(v, list):
+            c = int(prng.integers(5))
+            if c < 4:
+                np_[n] = (str(prng.choice(NP_INTS)), "tuple", "ndarray", str(prng.choice(NP_INTS)))[c]
+    if seed is not None and prng.integers(3):
+        np_["seed"] = str(prng.choice(NP_SEEDS))
+    form = {}
+    if np_:
+        form["np"] = np_
+    style = int(prng.integers(4))
+    if style == 0 and nopt:
+        form["kw"] = int(prng.integers(1, nopt + 1))
+    elif style == 1:
+        form["seed"] = "pos"
+    elif style == 2:
+        form["omit"] = True
+        if seed is None and prng.integers(2):
+            form["seed"] = "omit"
+    return form or None
+
+
+
 class GenRun:
     def __init__(self, st, out, rec, model):
         self.st, self.out, self.rec, self.model = st, out, rec, model
@@ -256,7 +400,7 @@ class GenRun:
         return self.ok and self.model is not None and not self.model.get("reject") and self.rec.event_names() == self.model["events"]
 
 
-def gen_call(ctx, rep, fname, fn, pos, seed, lean_call, info, nondegenerate, model_ok):
+def gen_call(ctx, rep, fname, fn, pos, seed, lean_call, info, nondegenerate, model_ok, form=None):
     """One generator call of the kinds stream.  The call is made twice, under two different *poisoned* states of NumPy's global
     generator (np.random.seed(..) + a few global draws); the first time inside a Recorder.  Checked here, for every function, option
     combination and dim form of the stream:
@@ -266,22 +410,32 @@ def gen_call(ctx, rep, fname, fn, pos, seed, lean_call, info, nondegenerate, mod
       - the recorded events (generator constructions, draws: method and shape) are the Lean draw program `Toq.Rand.trace`, every
         construction received the caller's seed, and the recorded arrays are bitwise those of the draw program run on fresh
         generators of that seed (draws_are_function_of_seed); the returned shape is `outShape`.
-    Deviations of the last group are a broken correspondence (the model no longer describes the code), not a verdict."""
+    Deviations of the last group are a broken correspondence (the model no longer describes the code), not a verdict.
+    Argument form (hardening pass): both calls are spelled in `form` (NumPy scalars, keywords, omitted defaults: call_args), so every
+    predicate and model relation of the caller is evaluated on the object of THAT spelling; a seeded call is made a third time with builtin
+    values by position and must return bitwise the same object (the object is a function of the argument values)."""
     _POISON[0] += 1
     saved = np.random.get_state()
+    a1, k1 = call_args(fn, pos, seed, form)
+    a2, k2 = call_args(fn, pos, seed, form)      # fresh objects: the first call must not be able to spoil the second through its arguments
     try:
         np.random.seed(0xC19 + 2 * _POISON[0])
         np.random.rand(3)
         with Recorder() as rec:
-            st, out = _call(fn, *pos, seed=seed)
+            st, out = _call(fn, *a1, **k1)
         np.random.seed(0x19C + 2 * _POISON[0] + 1)
         np.random.standard_normal(5)
         before = state_key(np.random.get_state())
-        st2, out2 = _call(fn, *pos, seed=seed)
+        st2, out2 = _call(fn, *a2, **k2)
         after = state_key(np.random.get_state())
+        if form and seed is not None:
+            st3, out3 = _call(fn, *pos, seed=seed)
     finally:
         np.random.set_state(saved)
-    call = f"{fname}({', '.join(repr(x) for x in pos)}, seed={seed})"
+    call = show_call(fname, a1, k1) if form else f"{fname}({', '.join(repr(x) for x in pos)}, seed={seed})"
+    if form:
+        for tag in sorted({("np-seed:" if n == "seed" else "np:") + t for n, t in (form.get("np") or {}).items()} | {x for x in ("kw", "omit") if form.get(x)} | ({"seed-" + form["seed"]} if form.get("seed") else set())):
+            ctx.count("argument-form/" + tag)
     if rec.state_in != rec.state_out or before != after:
         rep.fail("global-state-disturbed", f"{call} changed the state of NumPy's global generator", {**info, "theorem": "toqito_calls_do_not_disturb_global"})
     f1 = freeze(out) if st == "ok" else ("raise", out.split(":")[0])
@@ -295,6 +449,17 @@ def gen_call(ctx, rep, fname, fn, pos, seed, lean_call, info, nondegenerate, mod
         ctx.count("seeding/unseeded-twice")
         if f1 == f2:
             rep.fail("unseeded-reproducible", f"{call}: two unseeded calls returned bitwise the same object", {**info, "theorem": "(tested only)"})
+    if form and seed is not None and f1 == f2:      # (a call that is not reproducible in itself is reported above)
+        f3 = freeze(out3) if st3 == "ok" else ("raise", out3.split(":")[0])
+        if f1 != f3:
+            plain = f"{fname}({', '.join(repr(x) for x in pos)}, seed={seed})"
+            shp = lambda o: len(o) if isinstance(o, list) else np.asarray(o).shape    # noqa: E731
+            rep.fail("argument-form", f"{call} " + (f"raised {out}" if st != "ok" else "returned a different object") + f" than the same call with builtin values by position, {plain}"
+                     + (f" (shape {shp(out)} vs {shp(out3)})" if st == "ok" and st3 == "ok" else ""),
+                     {**info, "call": call, "impl": out, "builtin_call": plain, "builtin_impl": out3,
+                      "theorem": "draws_are_function_of_seed / seeded_output_history_independent (the object is a function of generator, argument values and seed)"})
+        else:
+            ctx.count("argument-form/same-object-as-builtin-spelling")
     if nondegenerate and st == "ok":
         key = (fname, repr(pos))
         seen = rep.outputs.setdefault(key, {})
@@ -345,27 +510,31 @@ def rel_fail(ctx, rep, fname, what, info):
     broken(ctx, f"{fname}/post-processing", what)
 
 
-def check_unitary(ctx, rep, dim, is_real, seed, model_ok=True):
+def check_unitary(ctx, rep, dim, is_real, seed, model_ok=True, form=None):
     args = {"kind": "unitary", "dim": dim, "is_real": is_real, "seed": seed}
+    form = resolve_form(form, "random_unitary", random_unitary, [dim, is_real], seed)
+    if form:
+        args["form"] = form
     d = dim if isinstance(dim, int) else dim[0]
     ctx.case(args, d >= 2, f"random_unitary/{'real' if is_real else 'complex'}/{'list' if isinstance(dim, list) else 'int'}{'/unseeded' if seed is None else ''}")
     info = {"function": "random_unitary", "args": args, "theorem": "unitary_post / unitary_post_csign / orthogonal_post_rsign"}
-    run = gen_call(ctx, rep, "random_unitary", random_unitary, [dim, is_real], seed, {"fn": "unitary", "dim": dim, "is_real": is_real}, info, d >= 2, model_ok)
+    call = call_text("random_unitary", random_unitary, [dim, is_real], seed, form, f"random_unitary({dim}, is_real={is_real}, seed={seed})")
+    run = gen_call(ctx, rep, "random_unitary", random_unitary, [dim, is_real], seed, {"fn": "unitary", "dim": dim, "is_real": is_real}, info, d >= 2, model_ok, form)
     st, U = run.st, run.out
     if st != "ok":
-        return rep.fail("raises", f"random_unitary({dim}, is_real={is_real}, seed={seed}) raised {U}", {**info, "impl": U})
+        return rep.fail("raises", f"{call} raised {U}", {**info, "impl": U})
     U = np.asarray(U)
     if U.shape != (d, d):
-        return rep.fail("shape", f"random_unitary({dim}) has shape {U.shape}", {**info, "impl": U})
+        return rep.fail("shape", f"{call} has shape {U.shape}", {**info, "impl": U})
     if not np.all(np.isfinite(U)):
-        return rep.fail("non-finite", f"random_unitary({dim}, is_real={is_real}, seed={seed}) has non-finite entries", {**info, "impl": U})
+        return rep.fail("non-finite", f"{call} has non-finite entries", {**info, "impl": U})
     r = max(exact_gram_resid(U), exact_gram_resid(U.conj().T))
     if r > TOL_GEN:
-        rep.fail("not-unitary", f"random_unitary({dim}, is_real={is_real}, seed={seed}): ||U^H U - 1||_max = {r:.3e} > {TOL_GEN}", {**info, "impl": U, "residual": r})
+        rep.fail("not-unitary", f"{call}: ||U^H U - 1||_max = {r:.3e} > {TOL_GEN}", {**info, "impl": U, "residual": r})
     if is_real and not imag_zero(U):
-        rep.fail("not-real", f"random_unitary({dim}, is_real=True, seed={seed}) has a non-zero imaginary part", {**info, "impl": U})
+        rep.fail("not-real", f"{call} has a non-zero imaginary part", {**info, "impl": U})
     if not is_real and d >= 2 and imag_zero(U):
-        rep.fail("complex-is-real", f"random_unitary({dim}, is_real=False, seed={seed}) is a real matrix", {**info, "impl": U})
+        rep.fail("complex-is-real", f"{call} is a real matrix", {**info, "impl": U})
     if run.exact_ready():
         # the phase-fixed QR factor is pinned by: U^H G upper triangular with positive diagonal (qr_posdiag_unique / unitary_post_upperPos)
         dr = run.draws()
@@ -378,20 +547,24 @@ def check_unitary(ctx, rep, dim, is_real, seed, model_ok=True):
         low = max([abs(T[i, j]) for i in range(d) for j in range(i)], default=0.0)
         dg = np.diag(T)
         if low > TOL_REL * scale or float(np.abs(dg.imag).max()) > TOL_REL * scale or float(dg.real.min()) < -TOL_REL * scale:
-            rel_fail(ctx, rep, "random_unitary", f"random_unitary({dim}, is_real={is_real}, seed={seed}): U^H G is not upper triangular with positive diagonal for the Ginibre draw G "
+            rel_fail(ctx, rep, "random_unitary", f"{call}: U^H G is not upper triangular with positive diagonal for the Ginibre draw G "
                      f"(below-diagonal {low:.2e}, diagonal {dg.tolist()})", info)
         else:
             ctx.count("relation/unitary-is-phase-fixed-qr-factor")
 
 
-def check_density(ctx, rep, dim, is_real, k_param, metric, seed, model_ok=True):
+def check_density(ctx, rep, dim, is_real, k_param, metric, seed, model_ok=True, form=None):
     args = {"kind": "density", "dim": dim, "is_real": is_real, "k_param": k_param, "distance_metric": metric, "seed": seed}
+    form = resolve_form(form, "random_density_matrix", random_density_matrix, [dim, is_real, k_param, metric], seed, ("dim",) if metric == "haar" else ())
+    if form:
+        args["form"] = form
     k = dim if k_param is None else k_param
     ctx.case(args, dim >= 2, f"random_density_matrix/{metric}/{'real' if is_real else 'complex'}/{'k=None' if k_param is None else ('k=dim' if k == dim else 'k<dim')}{'/unseeded' if seed is None else ''}")
     info = {"function": "random_density_matrix", "args": args, "theorem": "density_post / density_bures_post", "expected": f"density operator of rank <= {k}"}
-    call = f"random_density_matrix({dim}, is_real={is_real}, k_param={k_param}, distance_metric='{metric}', seed={seed})"
+    call = call_text("random_density_matrix", random_density_matrix, [dim, is_real, k_param, metric], seed, form,
+                     f"random_density_matrix({dim}, is_real={is_real}, k_param={k_param}, distance_metric='{metric}', seed={seed})")
     run = gen_call(ctx, rep, "random_density_matrix", random_density_matrix, [dim, is_real, k_param, metric], seed,
-                   {"fn": "density", "dim": dim, "is_real": is_real, "k_param": k_param, "bures": metric == "bures"}, info, dim >= 2, model_ok)
+                   {"fn": "density", "dim": dim, "is_real": is_real, "k_param": k_param, "bures": metric == "bures"}, info, dim >= 2, model_ok, form)
     st, rho = run.st, run.out
     if st != "ok":
         return rep.fail("raises/" + rho.split(":")[0], f"{call} raised {rho}", {**info, "impl": rho})
@@ -437,12 +610,15 @@ def check_density(ctx, rep, dim, is_real, k_param, metric, seed, model_ok=True):
             ctx.count("relation/density-equals-model/" + metric)
 
 
-def check_psd(ctx, rep, dim, is_real, seed, model_ok=True):
+def check_psd(ctx, rep, dim, is_real, seed, model_ok=True, form=None):
     args = {"kind": "psd", "dim": dim, "is_real": is_real, "seed": seed}
+    form = resolve_form(form, "random_psd_operator", random_psd_operator, [dim, is_real], seed, ("dim",))
+    if form:
+        args["form"] = form
     ctx.case(args, dim >= 2, f"random_psd_operator/{'real' if is_real else 'complex'}{'/unseeded' if seed is None else ''}")
     info = {"function": "random_psd_operator", "args": args, "theorem": "psd_post / psd_post_is_abs"}
-    call = f"random_psd_operator({dim}, is_real={is_real}, seed={seed})"
-    run = gen_call(ctx, rep, "random_psd_operator", random_psd_operator, [dim, is_real], seed, {"fn": "psd", "dim": dim, "is_real": is_real}, info, dim >= 2, model_ok)
+    call = call_text("random_psd_operator", random_psd_operator, [dim, is_real], seed, form, f"random_psd_operator({dim}, is_real={is_real}, seed={seed})")
+    run = gen_call(ctx, rep, "random_psd_operator", random_psd_operator, [dim, is_real], seed, {"fn": "psd", "dim": dim, "is_real": is_real}, info, dim >= 2, model_ok, form)
     st, A = run.st, run.out
     if st != "ok":
         return rep.fail("raises", f"{call} raised {A}", {**info, "impl": A})
@@ -490,12 +666,15 @@ def check_psd(ctx, rep, dim, is_real, seed, model_ok=True):
                 ctx.count("lapack-relation/psd-hypotheses-hold")
 
 
-def check_basis(ctx, rep, dim, is_real, seed, model_ok=True):
+def check_basis(ctx, rep, dim, is_real, seed, model_ok=True, form=None):
     args = {"kind": "basis", "dim": dim, "is_real": is_real, "seed": seed}
+    form = resolve_form(form, "random_orthonormal_basis", random_orthonormal_basis, [dim, is_real], seed)
+    if form:
+        args["form"] = form
     ctx.case(args, dim >= 2, f"random_orthonormal_basis/{'real' if is_real else 'complex'}{'/unseeded' if seed is None else ''}")
     info = {"function": "random_orthonormal_basis", "args": args, "theorem": "orthonormal_basis_post"}
-    call = f"random_orthonormal_basis({dim}, is_real={is_real}, seed={seed})"
-    run = gen_call(ctx, rep, "random_orthonormal_basis", random_orthonormal_basis, [dim, is_real], seed, {"fn": "basis", "dim": dim, "is_real": is_real}, info, dim >= 2, model_ok)
+    call = call_text("random_orthonormal_basis", random_orthonormal_basis, [dim, is_real], seed, form, f"random_orthonormal_basis({dim}, is_real={is_real}, seed={seed})")
+    run = gen_call(ctx, rep, "random_orthonormal_basis", random_orthonormal_basis, [dim, is_real], seed, {"fn": "basis", "dim": dim, "is_real": is_real}, info, dim >= 2, model_ok, form)
     st, B = run.st, run.out
     if st != "ok":
         return rep.fail("raises", f"{call} raised {B}", {**info, "impl": B})
@@ -533,18 +712,21 @@ def sv_ints(parts):
     return out
 
 
-def check_state_vector(ctx, rep, dim, is_real, k_param, seed, model_ok):
+def check_state_vector(ctx, rep, dim, is_real, k_param, seed, model_ok, form=None):
     args = {"kind": "state_vector", "dim": dim, "is_real": is_real, "k_param": k_param, "seed": seed}
     dims = [dim, dim] if isinstance(dim, int) else list(dim)
     schmidt_branch = 0 < k_param < min(dims)
+    form = resolve_form(form, "random_state_vector", random_state_vector, [dim, is_real, k_param], seed, () if schmidt_branch else ("dim",))
+    if form:
+        args["form"] = form
     listed = isinstance(dim, list)
     total = dims[0] * dims[1] if (listed or schmidt_branch) else dim
     ctx.case(args, total >= 2, f"random_state_vector/{'list' if listed else 'int'}/{'schmidt' if schmidt_branch else 'plain'}/{'real' if is_real else 'complex'}{'/unseeded' if seed is None else ''}")
     info = {"function": "random_state_vector", "args": args, "theorem": "stateVector_schmidt_le_k / stateVector_plain_schmidt_le_k / normalise_unit",
             "expected": f"unit vector of length {total}" + (f" with Schmidt rank <= {k_param} across {dims}" if k_param > 0 and (listed or schmidt_branch) else "")}
-    call = f"random_state_vector({dim}, is_real={is_real}, k_param={k_param}, seed={seed})"
+    call = call_text("random_state_vector", random_state_vector, [dim, is_real, k_param], seed, form, f"random_state_vector({dim}, is_real={is_real}, k_param={k_param}, seed={seed})")
     run = gen_call(ctx, rep, "random_state_vector", random_state_vector, [dim, is_real, k_param], seed,
-                   {"fn": "state_vector", "dim": dim, "is_real": is_real, "k_param": k_param}, info, total >= 2, model_ok)
+                   {"fn": "state_vector", "dim": dim, "is_real": is_real, "k_param": k_param}, info, total >= 2, model_ok, form)
     st, v = run.st, run.out
     if st != "ok":
         return rep.fail("raises/" + v.split(":")[0] + ("/list-dim" if listed else ""), f"{call} raised {v}", {**info, "impl": v})
@@ -597,12 +779,15 @@ def check_state_vector(ctx, rep, dim, is_real, k_param, seed, model_ok):
         rel_fail(ctx, rep, "random_state_vector", f"{call} differs from the Lean mirror model svRaw on the raw numbers by {float(np.abs(want - flat).max()):.3e}", info)
 
 
-def check_states(ctx, rep, n, d, seed, model_ok=True):
+def check_states(ctx, rep, n, d, seed, model_ok=True, form=None):
     args = {"kind": "states", "n": n, "d": d, "seed": seed}
+    form = resolve_form(form, "random_states", random_states, [n, d], seed, ("n", "d"))
+    if form:
+        args["form"] = form
     ctx.case(args, d >= 2, "random_states" + ("/unseeded" if seed is None else ""))
     info = {"function": "random_states", "args": args, "theorem": "normalise_unit"}
-    call = f"random_states({n}, {d}, seed={seed})"
-    run = gen_call(ctx, rep, "random_states", random_states, [n, d], seed, {"fn": "states", "n": n, "d": d}, info, d >= 2, model_ok)
+    call = call_text("random_states", random_states, [n, d], seed, form, f"random_states({n}, {d}, seed={seed})")
+    run = gen_call(ctx, rep, "random_states", random_states, [n, d], seed, {"fn": "states", "n": n, "d": d}, info, d >= 2, model_ok, form)
     st, S = run.st, run.out
     if st != "ok":
         return rep.fail("raises", f"{call} raised {S}", {**info, "impl": S})
@@ -622,12 +807,15 @@ def check_states(ctx, rep, n, d, seed, model_ok=True):
             ctx.count("relation/states-are-normalised-rows")
 
 
-def check_povm(ctx, rep, dim, ni, no, seed, model_ok):
+def check_povm(ctx, rep, dim, ni, no, seed, model_ok, form=None):
     args = {"kind": "povm", "dim": dim, "num_inputs": ni, "num_outputs": no, "seed": seed}
+    form = resolve_form(form, "random_povm", random_povm, [dim, ni, no], seed, ("dim", "num_inputs", "num_outputs"))
+    if form:
+        args["form"] = form
     ctx.case(args, dim >= 2 and no >= 2, f"random_povm/d={dim}" + ("/unseeded" if seed is None else ""))
     info = {"function": "random_povm", "args": args, "theorem": "povm_post / povm_post_general / povm_layout"}
-    call = f"random_povm({dim}, {ni}, {no}, seed={seed})"
-    run = gen_call(ctx, rep, "random_povm", random_povm, [dim, ni, no], seed, {"fn": "povm", "dim": dim, "num_inputs": ni, "num_outputs": no}, info, dim >= 2 and no >= 2, model_ok)
+    call = call_text("random_povm", random_povm, [dim, ni, no], seed, form, f"random_povm({dim}, {ni}, {no}, seed={seed})")
+    run = gen_call(ctx, rep, "random_povm", random_povm, [dim, ni, no], seed, {"fn": "povm", "dim": dim, "num_inputs": ni, "num_outputs": no}, info, dim >= 2 and no >= 2, model_ok, form)
     st, P = run.st, run.out
     if st != "ok":
         return rep.fail("raises", f"{call} raised {P}", {**info, "impl": P})
@@ -699,12 +887,15 @@ def check_povm_layout(ctx, rep, dim, ni, no, model_ok):
                  {"function": "c19_povm_layout", "args": {"dim": dim, "ni": ni, "no": no}, "model": res})
 
 
-def check_circulant(ctx, rep, dim, seed, model_ok=True):
+def check_circulant(ctx, rep, dim, seed, model_ok=True, form=None):
     args = {"kind": "circulant", "dim": dim, "seed": seed}
+    form = resolve_form(form, "random_circulant_gram_matrix", random_circulant_gram_matrix, [dim], seed, ("dim",))
+    if form:
+        args["form"] = form
     ctx.case(args, dim >= 3, "random_circulant_gram_matrix" + ("/unseeded" if seed is None else ""))
     info = {"function": "random_circulant_gram_matrix", "args": args, "theorem": "circulant_gram_psd / circulant_gram_circulant"}
-    call = f"random_circulant_gram_matrix({dim}, seed={seed})"
-    run = gen_call(ctx, rep, "random_circulant_gram_matrix", random_circulant_gram_matrix, [dim], seed, {"fn": "circulant", "dim": dim}, info, dim >= 1, model_ok)
+    call = call_text("random_circulant_gram_matrix", random_circulant_gram_matrix, [dim], seed, form, f"random_circulant_gram_matrix({dim}, seed={seed})")
+    run = gen_call(ctx, rep, "random_circulant_gram_matrix", random_circulant_gram_matrix, [dim], seed, {"fn": "circulant", "dim": dim}, info, dim >= 1, model_ok, form)
     st, C = run.st, run.out
     if st != "ok":
         return rep.fail("raises", f"{call} raised {C}", {**info, "impl": C})
@@ -735,11 +926,14 @@ def check_circulant(ctx, rep, dim, seed, model_ok=True):
             ctx.count("relation/circulant-equals-spec")
 
 
-def check_ginibre(ctx, rep, n, m, seed, model_ok=True):
+def check_ginibre(ctx, rep, n, m, seed, model_ok=True, form=None):
     args = {"kind": "ginibre", "n": n, "m": m, "seed": seed}
+    form = resolve_form(form, "random_ginibre", random_ginibre, [n, m], seed, ("dim_n", "dim_m"))
+    if form:
+        args["form"] = form
     ctx.case(args, n * m >= 2, "random_ginibre" + ("/unseeded" if seed is None else ""))
     info = {"function": "random_ginibre", "args": args, "theorem": "(shape only)"}
-    run = gen_call(ctx, rep, "random_ginibre", random_ginibre, [n, m], seed, {"fn": "ginibre", "n": n, "m": m}, info, True, model_ok)
+    run = gen_call(ctx, rep, "random_ginibre", random_ginibre, [n, m], seed, {"fn": "ginibre", "n": n, "m": m}, info, True, model_ok, form)
     st, G = run.st, run.out
     if st != "ok":
         return rep.fail("raises", f"random_ginibre({n}, {m}, seed={seed}) raised {G}", {**info, "impl": G})
@@ -752,6 +946,40 @@ def check_ginibre(ctx, rep, n, m, seed, model_ok=True):
             rel_fail(ctx, rep, "random_ginibre", f"random_ginibre({n}, {m}, seed={seed}) is not (N1 + i N2)/sqrt(2) of the two normal draws", info)
         else:
             ctx.count("relation/ginibre-equals-formula")
+
+
+NP_DIM_MATCHER = "c19-numpy-integer-scalar-dim"
+
+
+def observe_np_dim(ctx, rep):
+    """A scalar `dim` spelled as a NumPy integer, for the functions / branches that test `isinstance(dim, int)` (random_unitary and its callers
+    random_orthonormal_basis, random_density_matrix(distance_metric='bures'); the Schmidt branch of random_state_vector).  On the tree as read
+    these calls raise IndexError ('invalid index to scalar variable'): reported to the maintainers of the check as a candidate finding.  Until a
+    record with matcher NP_DIM_MATCHER exists in KNOWN_FINDINGS.jsonl the exception is only counted; a call that RETURNS must return
+    bitwise the object of the builtin spelling (verdict)."""
+    recorded = any(r.get("matcher") == NP_DIM_MATCHER for r in getattr(ctx, "known", []))
+    for fname, fn, pos in (("random_unitary", random_unitary, [3, False]), ("random_unitary", random_unitary, [2, True]),
+                           ("random_orthonormal_basis", random_orthonormal_basis, [3, False]),
+                           ("random_density_matrix", random_density_matrix, [3, False, 3, "bures"]), ("random_density_matrix", random_density_matrix, [2, True, None, "bures"]),
+                           ("random_state_vector", random_state_vector, [3, False, 1]), ("random_state_vector", random_state_vector, [4, True, 2])):
+        for t in ("int64", "int32"):
+            form = {"np": {"dim": t}}
+            a, k = call_args(fn, pos, 7, form)
+            call = show_call(fname, a, k)
+            args = {"kind": "np_dim", "function": fname, "pos": pos, "seed": 7, "form": form}
+            ctx.case(args, True, f"{fname}/numpy-integer-scalar-dim")
+            st, out = _call(fn, *a, **k)
+            st0, out0 = _call(fn, *pos, seed=7)
+            info = {"function": fname, "args": args, "call": call, "impl": out, "expected": out0,
+                    "theorem": "draws_are_function_of_seed (the object is a function of generator, argument values and seed)"}
+            if st != "ok" and st0 == "ok":
+                ctx.count(f"numpy-integer-scalar-dim/{fname}/raises-{out.split(':')[0]}" + ("" if recorded else "(counted only: candidate finding, no record yet)"))
+                if recorded:
+                    rep.fail("numpy-scalar-dim-raises", f"{call} raised {out}; the builtin spelling returns", info)
+            elif st == "ok" and st0 == "ok" and freeze(out) != freeze(out0):
+                rep.fail("argument-form", f"{call} returned a different object than the builtin spelling", info)
+            else:
+                ctx.count(f"numpy-integer-scalar-dim/{fname}/same-object")
 
 
 def with_none(seeds, rng, one_in=2):
@@ -771,24 +999,49 @@ def run_kinds(ctx, rep, model_ok):
     check_density(ctx, rep, 3, False, 2, "bures", 7, model_ok)
     for s in range(8):  # (1 + U) G = 0 for dim 1, U = -1
         check_density(ctx, rep, 1, True, None, "bures", s, model_ok)
+    # corpus of the hardening pass: optional arguments spelled as NumPy scalars (what `for k in np.arange(1, d)` or an entry of an integer
+    # array hands over), by keyword, by position, left out; every object must be the one of the builtin spelling and of the advertised kind
+    i64 = {"k_param": "int64"}
+    check_state_vector(ctx, rep, [3, 3], False, 1, 0, model_ok, {"np": i64, "kw": 1})
+    check_state_vector(ctx, rep, 3, True, 1, 7, model_ok, {"np": {**i64, "seed": "int64"}, "seed": "pos"})
+    check_state_vector(ctx, rep, 4, False, 2, 2024, model_ok, {"np": {"k_param": "int32", "is_real": "bool_"}, "kw": 2})
+    check_state_vector(ctx, rep, [3, 4], False, 2, 7, model_ok, {"np": {"dim": "int64", "k_param": "intp", "seed": "uint32"}})
+    check_state_vector(ctx, rep, [4, 3], True, 3, 0, model_ok, {"np": {"dim": "ndarray", "k_param": "int64", "is_real": "bool_"}, "kw": 1})
+    check_state_vector(ctx, rep, [2, 2], False, 1, 1, model_ok, {"np": {"dim": "tuple", "k_param": "int64"}})
+    check_state_vector(ctx, rep, 5, False, 0, 3, model_ok, {"np": {"dim": "int64", "seed": "uint64"}, "omit": True})
+    check_state_vector(ctx, rep, 3, False, 0, None, model_ok, {"omit": True, "seed": "omit"})
+    check_density(ctx, rep, 3, False, 2, "haar", 7, model_ok, {"np": {"dim": "int64", "is_real": "bool_", "k_param": "int64", "seed": "uint32"}, "kw": 3})
+    check_density(ctx, rep, 4, True, 1, "haar", 0, model_ok, {"np": {"k_param": "int32", "is_real": "bool_"}, "seed": "pos"})
+    check_density(ctx, rep, 3, True, 3, "bures", 5, model_ok, {"np": {"k_param": "int64", "seed": "int64"}, "kw": 2})
+    check_density(ctx, rep, 3, False, None, "haar", 9, model_ok, {"np": {"dim": "int32"}, "omit": True})
+    check_unitary(ctx, rep, [3, 3], True, 7, model_ok, {"np": {"dim": "int64", "is_real": "bool_", "seed": "int64"}, "kw": 1})
+    check_unitary(ctx, rep, [2, 2], False, 0, model_ok, {"np": {"dim": "ndarray", "seed": "uint32"}, "seed": "pos"})
+    check_unitary(ctx, rep, 3, False, 11, model_ok, {"np": {"seed": "uint64"}, "omit": True})
+    check_psd(ctx, rep, 3, True, 7, model_ok, {"np": {"dim": "int64", "is_real": "bool_", "seed": "int64"}, "seed": "pos"})
+    check_basis(ctx, rep, 3, True, 7, model_ok, {"np": {"is_real": "bool_", "seed": "uint32"}, "kw": 1})
+    check_states(ctx, rep, 3, 2, 7, model_ok, {"np": {"n": "int64", "d": "int32", "seed": "int64"}, "seed": "pos"})
+    check_povm(ctx, rep, 2, 2, 3, 7, model_ok, {"np": {"dim": "int64", "num_inputs": "int64", "num_outputs": "int32", "seed": "uint32"}})
+    check_circulant(ctx, rep, 4, 7, model_ok, {"np": {"dim": "int64", "seed": "int64"}, "seed": "pos"})
+    check_ginibre(ctx, rep, 2, 3, 7, model_ok, {"np": {"dim_n": "int64", "dim_m": "int64", "seed": "uint64"}})
+    observe_np_dim(ctx, rep)
     for d in dims:
         for is_real in (False, True):
-            for form in (d, [d, d]):
+            for dform in (d, [d, d]):
                 for s in with_none(seeds_from(rng, ns + 1), rng):
-                    check_unitary(ctx, rep, form, is_real, s, model_ok)
+                    check_unitary(ctx, rep, dform, is_real, s, model_ok, "auto")
             for s in with_none(seeds_from(rng, ns + 1), rng):
-                check_psd(ctx, rep, d, is_real, s, model_ok)
-                check_basis(ctx, rep, d, is_real, s, model_ok)
+                check_psd(ctx, rep, d, is_real, s, model_ok, "auto")
+                check_basis(ctx, rep, d, is_real, s, model_ok, "auto")
             for metric in ("haar", "bures"):
                 for k in [None] + list(range(1, d + 1)):
                     for s in with_none(seeds_from(rng, ns), rng, 3):
-                        check_density(ctx, rep, d, is_real, k, metric, s, model_ok)
+                        check_density(ctx, rep, d, is_real, k, metric, s, model_ok, "auto")
         for s in with_none(seeds_from(rng, ns + 1), rng):
-            check_circulant(ctx, rep, d, s, model_ok)
+            check_circulant(ctx, rep, d, s, model_ok, "auto")
         for n in range(1, 5):
             for s in with_none(seeds_from(rng, ns), rng, 3):
-                check_states(ctx, rep, n, d, s, model_ok)
-                check_ginibre(ctx, rep, d, n, s, model_ok)
+                check_states(ctx, rep, n, d, s, model_ok, "auto")
+                check_ginibre(ctx, rep, d, n, s, model_ok, "auto")
     # state vectors: scalar dims 1..6, list dims [d0,d1] with d0*d1 <= 36, k over 0..min(dim)
     sv_cfgs = []
     for d in dims:
@@ -805,7 +1058,7 @@ def run_kinds(ctx, rep, model_ok):
     for dim, k in sv_cfgs:
         for is_real in (False, True):
             for s in with_none(seeds_from(rng, ns), rng, 4):
-                check_state_vector(ctx, rep, dim, is_real, k, s, model_ok)
+                check_state_vector(ctx, rep, dim, is_real, k, s, model_ok, "auto")
     # POVMs
     povm_cfgs = list(itertools.product(dims, range(1, 4), range(1, 5)))
     if quick:
@@ -815,7 +1068,7 @@ def run_kinds(ctx, rep, model_ok):
         povm_cfgs = keep + [rest[int(i)] for i in sorted(pick)]
     for d, ni, no in povm_cfgs:
         for s in with_none(seeds_from(rng, ns), rng, 3):
-            check_povm(ctx, rep, d, ni, no, s, model_ok)
+            check_povm(ctx, rep, d, ni, no, s, model_ok, "auto")
     for d, ni, no in [(2, 2, 3), (3, 1, 4), (1, 3, 2), (4, 3, 1)]:
         check_povm_layout(ctx, rep, d, ni, no, model_ok)
     # malformed dim of random_unitary: a non-square list is rejected with ValueError (the draw program agrees on the exception)
@@ -828,6 +1081,10 @@ def run_kinds(ctx, rep, model_ok):
 
 
 # ------------------------------------------------------------------------------------------------ B. histories
+
+def _npseed(seed, t):
+    return None if seed is None else getattr(np, t)(seed)
+
 
 # non-degenerate (generator, args) menu: the set of valid outputs is a continuum, so different seeds give different objects
 MENU = [
@@ -857,6 +1114,14 @@ MENU = [
     ("random_state_vector", lambda seed: random_state_vector([2, 2], True, 2, seed=seed), {"dim": [2, 2], "is_real": True, "k_param": 2}),
     ("random_state_vector", lambda seed: random_state_vector(2, True, 0, seed=seed), {"dim": 2, "is_real": True}),
     ("random_povm", lambda seed: random_povm(3, 1, 2, seed=seed), {"dim": 3, "num_inputs": 1, "num_outputs": 2}),
+    # hardening pass: arguments and seeds spelled as NumPy scalars, by keyword / by position / left out (values distinct from the entries above)
+    ("random_state_vector", lambda seed: random_state_vector([3, 4], k_param=np.int64(2), seed=_npseed(seed, "uint32")), {"dim": [3, 4], "k_param": "np.int64(2)", "seed": "np.uint32"}),
+    ("random_state_vector", lambda seed: random_state_vector(4, np.bool_(True), np.int32(1), _npseed(seed, "int64")), {"dim": 4, "is_real": "np.True_", "k_param": "np.int32(1)", "seed": "np.int64, by position"}),
+    ("random_state_vector", lambda seed: random_state_vector(np.int64(5), seed=seed), {"dim": "np.int64(5)", "k_param": "left out"}),
+    ("random_density_matrix", lambda seed: random_density_matrix(np.int64(4), k_param=np.int32(2), seed=_npseed(seed, "uint64")), {"dim": "np.int64(4)", "k_param": "np.int32(2)", "seed": "np.uint64"}),
+    ("random_unitary", lambda seed: random_unitary([np.int64(4), np.int64(4)], is_real=np.bool_(False), seed=_npseed(seed, "int64")), {"dim": "[np.int64(4)] * 2", "is_real": "np.False_", "seed": "np.int64"}),
+    ("random_psd_operator", lambda seed: random_psd_operator(np.int64(4), np.bool_(False), _npseed(seed, "uint32")), {"dim": "np.int64(4)", "seed": "np.uint32, by position"}),
+    ("random_povm", lambda seed: random_povm(np.int64(2), np.int64(1), np.int64(2), seed=_npseed(seed, "int64")), {"dim": "np.int64(2)", "num_inputs": "np.int64(1)", "num_outputs": "np.int64(2)", "seed": "np.int64"}),
 ]
 GEN_IDS = {name: i for i, name in enumerate(sorted({m[0] for m in MENU}))}
 
@@ -1160,6 +1425,18 @@ def pgm_model_check(ctx, rep, rec, d, rhos, probs, M, info, fname):
         ctx.count("relation/pgm-equals-model")
 
 
+def present_probs(prng, probs):
+    """the optional prior argument in one of its spellings (same values): list of float, list of np.float64 (what a slice of an array gives element by
+    element), float64 ndarray, tuple; by position or by keyword"""
+    c = int(prng.integers(5))
+    val = [list(probs), [np.float64(q) for q in probs], np.array(probs, dtype=float), tuple(probs), list(probs)][c]
+    return val, bool(prng.integers(2)), ["list", "list-of-np.float64", "ndarray", "tuple", "list"][c]
+
+
+def _pgm_call(fn, pst, ppr, by_kw):
+    return _call(fn, pst, probs=ppr) if by_kw else _call(fn, pst, ppr)
+
+
 def check_pgm(ctx, rep, inst, with_opt=True, model_ok=True):
     d, states, rhos, probs, form, cplx, lam = inst
     n = len(states)
@@ -1169,11 +1446,13 @@ def check_pgm(ctx, rep, inst, with_opt=True, model_ok=True):
     info = {"function": "pretty_good_measurement", "args": args, "theorem": "pgm_is_povm"}
     prng = case_rng("c19/pgm", d, form, cplx, probs, args["states"])
     # real-valued states start as complex128, so that each element independently arrives as complex128 / float64 / int64 (dtype-mixed lists)
-    pst, ppr = present_obj(prng, [np.array(s, dtype=complex) for s in states]), list(probs)
+    pst = present_obj(prng, [np.array(s, dtype=complex) for s in states])
+    ppr, by_kw, pform = present_probs(prng, probs)
+    ctx.count(f"pgm/probs-spelling/{pform}/{'keyword' if by_kw else 'position'}")
     guard = Pure(pst, ppr)
     with Recorder() as rec:
-        st, M = _call(pretty_good_measurement, pst, ppr)
-    impure(rep, guard, "pretty_good_measurement", info, pdescribe(pst))
+        st, M = _pgm_call(pretty_good_measurement, pst, ppr, by_kw)
+    impure(rep, guard, "pretty_good_measurement", info, pdescribe(pst) + [pform])
     if st != "ok":
         return rep.fail("raises", f"pretty_good_measurement raised {M} on a spanning ensemble (lambda_min = {lam:.3f})", {**info, "impl": M})
     if len(M) != n:
@@ -1210,11 +1489,12 @@ def check_pgm(ctx, rep, inst, with_opt=True, model_ok=True):
                 broken(ctx, "pretty_bad_measurement/default-priors", "pretty_bad_measurement(states) is not (1 - G_i)/(n-1) of pretty_good_measurement(states)")
     # pretty bad measurement
     infob = {**info, "function": "pretty_bad_measurement", "theorem": "pbm_is_povm"}
-    pst, ppr = present_obj(prng, [np.array(s, dtype=complex) for s in states]), list(probs)
+    pst = present_obj(prng, [np.array(s, dtype=complex) for s in states])
+    ppr, by_kw, pform = present_probs(prng, probs)
     guard = Pure(pst, ppr)
     with Recorder() as recb:
-        st, B = _call(pretty_bad_measurement, pst, ppr)
-    impure(rep, guard, "pretty_bad_measurement", infob, pdescribe(pst))
+        st, B = _pgm_call(pretty_bad_measurement, pst, ppr, by_kw)
+    impure(rep, guard, "pretty_bad_measurement", infob, pdescribe(pst) + [pform])
     if st != "ok":
         rep.fail("raises", f"pretty_bad_measurement raised {B} on a spanning ensemble", {**infob, "impl": B})
     else:
@@ -1316,6 +1596,68 @@ def gen_measure_case(rng):
     return d, rho, ops, kind, True
 
 
+LOW_EPS = (4e-4, 1e-5, 3e-7, 2e-9, 3e-11)
+MEAS_TOLS = (None, 1e-8, 1e-6, 1e-3, 1e-2, 0.3)
+
+
+def gen_low_prob_case(rng):
+    """A complete measurement with UNLIKELY outcomes, and an explicit `tol` that is larger than some of the genuine probabilities: a state with
+    eigenvalues eps_1.. (from LOW_EPS) and dyadic-weighted rest in a rotated (rational unitary) basis, measured by rank-one projectors of that
+    basis, by coarse-grained projectors, by projectors followed by outcome-dependent unitaries (Kraus operators W_i P_i), or by a single projector.
+    `tol` only selects whether a post-measurement state is produced (docstring: `p_i <= tol` gives a zero matrix); the reported probabilities
+    are the Born values for every tol (measure_model_born is stated for all tol; measure_model_prob_tol_indep) and sum to one.
+    tol is chosen so that every outcome probability is a factor >= 2 away from it (no borderline float comparison) and, when possible,
+    at least one probability p has 1e-11 <= p <= tol / 2."""
+    d = int(rng.integers(2, 6))
+    cplx = bool(rng.integers(3))
+    U = qgen.cayley_unitary(rng, d, cplx)
+    nlow = int(rng.integers(1, d))
+    eps = [float(rng.choice(LOW_EPS)) for _ in range(nlow)]
+    w = rng.integers(1, 9, size=d - nlow).astype(float)
+    lam = np.array(eps + list(w / w.sum() * (1 - sum(eps))))[rng.permutation(d)]
+    rho = (U * lam) @ U.conj().T
+    rho = (rho + rho.conj().T) / 2
+    sub = str(rng.choice(["projective", "projective", "rotated", "coarse", "single"]))
+    proj = [np.outer(U[:, i], U[:, i].conj()) for i in range(d)]
+    if sub == "projective":
+        ops = proj
+    elif sub == "rotated":
+        ops = [qgen.cayley_unitary(rng, d, cplx) @ q for q in proj]
+    elif sub == "coarse":
+        g = int(rng.integers(2, d + 1))
+        order = np.argsort(lam)                      # the g smallest eigenvalues go to g different groups, the others anywhere
+        lab = np.empty(d, dtype=int)
+        lab[order[:g]] = np.arange(g)
+        lab[order[g:]] = rng.integers(0, g, size=d - g)
+        ops = [sum(proj[i] for i in range(d) if lab[i] == c) for c in range(g)]
+    else:
+        ops = proj[int(np.argmin(lam))]
+    oplist = ops if isinstance(ops, list) else [ops]
+    born = [float(np.trace(o.conj().T @ o @ rho).real) for o in oplist]
+    good = [t for t in MEAS_TOLS if all(p > 2 * (t or 1e-10) or p < (t or 1e-10) / 2 for p in born)]
+    best = [t for t in good if any(1e-11 <= p <= (t or 1e-10) / 2 for p in born)]
+    pool = best or good or [None]
+    tol = pool[int(rng.integers(len(pool)))]
+    return (d, rho, ops, "low_prob/" + sub, None if sub == "single" else True), tol, bool(best)
+
+
+def pick_measure_form(case, container, state_update, tol_arg):
+    """how the optional arguments of measure are spelled (determined by the case): tol as float / np.float64 / np.float32, state_update as bool / np.bool_,
+    both by keyword or by position"""
+    d, rho, ops, kind, complete = case
+    prng = case_rng("c19/measure-form", kind, d, container, state_update, tol_arg, [float(x) for x in np.asarray(rho, dtype=complex).real.reshape(-1)])
+    form = {}
+    if tol_arg is not None:
+        t = str(prng.choice(["float", "float", "float64", "float64", "float32"]))
+        if t != "float":
+            form["tol"] = t
+        if prng.integers(2):
+            form["pos"] = True
+    if prng.integers(2):
+        form["upd"] = "bool_"
+    return form or None
+
+
 def measure_model_check(ctx, rep, d, rho, oplist, single, state_update, tol, st, out, info):
     """the Lean model of `measure` (Born probability, `prob > tol` branch, post state `K rho K^H / prob` or zeros_like(state), completeness
     check of the list form) on the exact dyadic values of the same inputs; borderline float comparisons (within 1e-3 of a threshold) are skipped"""
@@ -1354,24 +1696,37 @@ def measure_model_check(ctx, rep, d, rho, oplist, single, state_update, tol, st,
     ctx.count("relation/measure-equals-model")
 
 
-def check_measure(ctx, rep, case, container, state_update, tol_arg, model_ok=True):
+def check_measure(ctx, rep, case, container, state_update, tol_arg, model_ok=True, form=None, nontrivial=True):
     d, rho, ops, kind, complete = case
+    if form == "auto":
+        form = pick_measure_form(case, container, state_update, tol_arg)
+    form = form or None
     single = not isinstance(ops, list)
     meas = ops if single else (tuple(ops) if container == "tuple" else list(ops))
     args = {"kind": "measure", "subkind": kind, "dim": d, "container": "ndarray" if single else container, "state_update": state_update, "tol": tol_arg,
             "rho": [[[float(z.real), float(z.imag)] for z in row] for row in np.asarray(rho, dtype=complex)],
             "ops": [[[[float(z.real), float(z.imag)] for z in row] for row in np.asarray(o, dtype=complex)] for o in ([ops] if single else ops)]}
-    ctx.case(args, True, f"measure/{kind}/{'update' if state_update else 'prob'}")
-    info = {"function": "measure", "args": args, "theorem": "measure_born / measure_probs_sum_one / measure_post_normalised"}
-    kw = {"state_update": state_update}
+    if form:
+        args["form"] = form
+    ctx.case(args, nontrivial, f"measure/{kind}/{'update' if state_update else 'prob'}" + ("" if tol_arg is None else ("/tol<=1e-6" if tol_arg <= 1e-6 else "/tol>=1e-3")))
+    info = {"function": "measure", "args": args, "theorem": "measure_born / measure_probs_sum_one / measure_post_normalised / measure_model_born, measure_model_prob_tol_indep, measure_model_below_tol (every tol)"}
+    updv = np.bool_(state_update) if form and form.get("upd") else state_update
+    tolv = tol_arg if tol_arg is None or not (form and form.get("tol")) else getattr(np, form["tol"])(tol_arg)
+    pos, kw = (), {"state_update": updv}
     if tol_arg is not None:
-        kw["tol"] = tol_arg
-    tol = 1e-10 if tol_arg is None else tol_arg
+        kw["tol"] = tolv
+    if form and form.get("pos") and tol_arg is not None:
+        pos, kw = (tolv, updv), {}
+    tol = 1e-10 if tol_arg is None else float(tolv)      # the value the code compares with (np.float32(1e-3) is not 1e-3)
+    if form:
+        for k_, v_ in form.items():
+            ctx.count("measure/argument-form/" + (k_ if v_ is True else f"{k_}:{v_}"))
+        info["call"] = "measure(state, measurement" + "".join(f", {x!r}" for x in pos) + "".join(f", {k}={v!r}" for k, v in kw.items()) + ")"
     prng = case_rng("c19/measure", kind, d, args["container"], state_update, tol_arg, args["rho"], args["ops"])
     prho = present_nd(prng, np.asarray(rho, dtype=complex))
     pmeas = present_obj(prng, np.asarray(meas, dtype=complex) if single else type(meas)(np.asarray(o, dtype=complex) for o in meas))   # container type kept
     guard = Pure(prho, pmeas)
-    st, out = _call(measure, prho, pmeas, **kw)
+    st, out = _call(measure, prho, pmeas, *pos, **kw)
     impure(rep, guard, "measure", info, pdescribe([prho, pmeas]))
     oplist = [ops] if single else ops
     if model_ok:
@@ -1404,18 +1759,23 @@ def check_measure(ctx, rep, case, container, state_update, tol_arg, model_ok=Tru
             p, post = float(o), None
         probs.append(p)
         if abs(p - born[i]) > TOL_MEAS:
-            rep.fail("born", f"outcome {i}: probability {p!r} differs from tr(K^dagger K rho) = {born[i]!r}", {**info, "impl": out, "expected": born})
+            rep.fail("born", f"outcome {i}: probability {p!r} differs from tr(K^dagger K rho) = {born[i]!r}" + ("" if tol_arg is None else f" (tol={tolv!r})"), {**info, "impl": out, "expected": born})
+        elif abs(p - born[i]) > TOL_BORN_TIGHT * max(1.0, float(np.abs(K).max()) ** 2):
+            # hardening pass: unlikely outcomes (probability below TOL_MEAS, or below the function's own `tol`) are outcomes; the Born value is
+            # direct float algebra on entries of size <= 1 (rounding <= d^3 2^-52 ~ 1e-14)
+            rep.fail("born", f"outcome {i}: probability {p!r} differs from tr(K^dagger K rho) = {born[i]!r} by more than {TOL_BORN_TIGHT}"
+                     + ("" if tol_arg is None else f" (tol={tolv!r})"), {**info, "impl": out, "expected": born})
         if p < -TOL_MEAS:
             rep.fail("negative-probability", f"outcome {i}: probability {p!r}", {**info, "impl": out})
         if post is not None:
-            if born[i] > 1e-6:
+            if born[i] > 1e-6 and born[i] > tol * (1 + 1e-3):
                 want = K @ rho @ K.conj().T / born[i]
                 if post.shape != want.shape or float(np.abs(post - want).max()) > TOL_MEAS:
                     rep.fail("post-state", f"outcome {i}: post-measurement state differs from K rho K^dagger / p", {**info, "impl": out, "expected": want})
                 elif abs(float(np.trace(post).real) - 1) > TOL_MEAS or abs(float(np.trace(post).imag)) > TOL_MEAS:
                     rep.fail("post-trace", f"outcome {i}: post-measurement state has trace {np.trace(post)!r}", {**info, "impl": out})
-            elif born[i] <= tol / 10 and np.abs(post).max() != 0:
-                rep.fail("post-state-zero-prob", f"outcome {i} has probability {born[i]:.1e} <= tol but a non-zero post-measurement state", {**info, "impl": out})
+            elif (born[i] <= tol / 10 or born[i] < tol * (1 - 1e-3)) and np.abs(post).max() != 0:
+                rep.fail("post-state-zero-prob", f"outcome {i} has probability {born[i]:.1e} <= tol = {tol!r} but a non-zero post-measurement state", {**info, "impl": out})
     if complete and not single and abs(sum(probs) - 1) > TOL_MEAS:
         rep.fail("probs-sum", f"probabilities of a complete measurement sum to {sum(probs)!r}", {**info, "impl": out})
 
@@ -1485,6 +1845,7 @@ def install_matchers(ctx):
         a = info.get("args", {})
         return (info.get("function") == "random_state_vector" and isinstance(a.get("dim"), list) and not (0 < a.get("k_param", 0) < min(a["dim"]))
                 and info.get("failure_class") == "raises/TypeError/list-dim")
+    ctx.matchers[NP_DIM_MATCHER] = lambda info: info.get("failure_class") == "numpy-scalar-dim-raises" and str(info.get("impl", "")).startswith("IndexError")
     ctx.matchers["c19-bures-kparam-lt-dim"] = bures
     ctx.matchers["c19-state-vector-list-dim-plain-branch"] = sv_list
 
@@ -1519,9 +1880,29 @@ def run(ctx, model_ok=True):
         inst = gen_ensemble(rng, False)
         if inst is not None:
             observe_non_spanning(ctx, inst)
+    # hardening pass, corpus: an unlikely outcome (probability 4e-4 / 3e-7 / 3e-11 in a rotated basis) and a `tol` argument above it - the
+    # probabilities are still the Born values and sum to one; tol spelled as float, np.float64, np.float32, by keyword and by position
+    th = 0.3
+    u2 = np.array([[np.cos(th), -np.sin(th) * np.exp(-0.4j)], [np.sin(th) * np.exp(0.4j), np.cos(th)]])
+    k2 = [u2 @ np.diag([1.0, 0.0]) @ u2.conj().T, u2 @ np.diag([0.0, 1.0]) @ u2.conj().T]
+    for eps, tols in ((4e-4, (1e-3, 1e-2, 1e-6, None)), (3e-7, (1e-3, 1e-6, None)), (3e-11, (None, 1e-8, 1e-3))):
+        r2 = u2 @ np.diag([1 - eps, eps]).astype(complex) @ u2.conj().T
+        r2 = (r2 + r2.conj().T) / 2
+        for j, t in enumerate(tols):
+            for upd in (False, True):
+                fm = [None, {"tol": "float64"}, {"tol": "float64", "pos": True, "upd": "bool_"}, {"tol": "float32", "pos": True}][(j + upd) % 4] if t is not None else ({"upd": "bool_"} if upd else None)
+                check_measure(ctx, rep, (2, r2, k2, "low_prob/projective", True), "list" if upd else "tuple", upd, t, model_ok, fm)
+                check_measure(ctx, rep, (2, r2, k2[1], "low_prob/single", None), "list", upd, t, model_ok, fm)
+    # every outcome below tol: the maximally mixed state of two qubits in the computational basis, tol = 0.3
+    e4 = [np.diag(np.eye(4)[i]).astype(complex) for i in range(4)]
+    for upd in (False, True):
+        check_measure(ctx, rep, (4, np.eye(4, dtype=complex) / 4, e4, "low_prob/projective", True), "list", upd, 0.3, model_ok, {"tol": "float64"})
+    for i in range(100 if quick else 3000):
+        case, t, nt = gen_low_prob_case(rng)
+        check_measure(ctx, rep, case, str(rng.choice(["list", "tuple"])), bool(rng.integers(2)), t, model_ok, "auto", nt)
     for i in range(300 if quick else 8000):
         case = gen_measure_case(rng)
-        check_measure(ctx, rep, case, str(rng.choice(["list", "tuple"])), bool(rng.integers(2)), None if rng.integers(3) else 1e-8, model_ok)
+        check_measure(ctx, rep, case, str(rng.choice(["list", "tuple"])), bool(rng.integers(2)), None if rng.integers(3) else 1e-8, model_ok, "auto")
     # a state of a narrower dtype than the operators / the result: integer-valued |0><0| measured in the X basis, a real state
     # measured in the Y basis (complex Kraus operators), a real diagonal state under complex unitary-rotated projectors
     sq = 1 / np.sqrt(2)
@@ -1547,23 +1928,23 @@ def replay(ctx, rec):
     a = rec.get("args", {})
     k = a.get("kind")
     if k == "unitary":
-        check_unitary(ctx, rep, a["dim"], a["is_real"], a["seed"])
+        check_unitary(ctx, rep, a["dim"], a["is_real"], a["seed"], True, a.get("form"))
     elif k == "density":
-        check_density(ctx, rep, a["dim"], a["is_real"], a["k_param"], a["distance_metric"], a["seed"])
+        check_density(ctx, rep, a["dim"], a["is_real"], a["k_param"], a["distance_metric"], a["seed"], True, a.get("form"))
     elif k == "psd":
-        check_psd(ctx, rep, a["dim"], a["is_real"], a["seed"])
+        check_psd(ctx, rep, a["dim"], a["is_real"], a["seed"], True, a.get("form"))
     elif k == "basis":
-        check_basis(ctx, rep, a["dim"], a["is_real"], a["seed"])
+        check_basis(ctx, rep, a["dim"], a["is_real"], a["seed"], True, a.get("form"))
     elif k == "state_vector":
-        check_state_vector(ctx, rep, a["dim"], a["is_real"], a["k_param"], a["seed"], True)
+        check_state_vector(ctx, rep, a["dim"], a["is_real"], a["k_param"], a["seed"], True, a.get("form"))
     elif k == "states":
-        check_states(ctx, rep, a["n"], a["d"], a["seed"])
+        check_states(ctx, rep, a["n"], a["d"], a["seed"], True, a.get("form"))
     elif k == "povm":
-        check_povm(ctx, rep, a["dim"], a["num_inputs"], a["num_outputs"], a["seed"], True)
+        check_povm(ctx, rep, a["dim"], a["num_inputs"], a["num_outputs"], a["seed"], True, a.get("form"))
     elif k == "circulant":
-        check_circulant(ctx, rep, a["dim"], a["seed"])
+        check_circulant(ctx, rep, a["dim"], a["seed"], True, a.get("form"))
     elif k == "ginibre":
-        check_ginibre(ctx, rep, a["n"], a["m"], a["seed"])
+        check_ginibre(ctx, rep, a["n"], a["m"], a["seed"], True, a.get("form"))
     elif k == "history":
         check_history(ctx, rep, [list(o) for o in a["ops"]], a["state0_seed"], True)
     elif k == "pgm":
@@ -1581,7 +1962,7 @@ def replay(ctx, rec):
         ops = [_c(o) for o in a["ops"]]
         single = a["container"] == "ndarray"
         complete = {"incomplete": False}.get(a["subkind"], None if single else True)
-        check_measure(ctx, rep, (a["dim"], rho, ops[0] if single else ops, a["subkind"], complete), a["container"], a["state_update"], a["tol"])
+        check_measure(ctx, rep, (a["dim"], rho, ops[0] if single else ops, a["subkind"], complete), a["container"], a["state_update"], a["tol"], True, a.get("form"))
     elif k == "is_povm":
         mats = [_c(m) for m in a["mats"]]
         st, got = _call(is_povm, mats)
@@ -1589,5 +1970,7 @@ def replay(ctx, rec):
             ctx.violation("is_povm verdict (replay)", {"function": "is_povm", "args": a, "impl": got, "expected": rec.get("expected")})
     elif k == "seed_pair":
         check_seed_pairs(ctx, rep)
+    elif k == "np_dim":
+        observe_np_dim(ctx, rep)
     else:
         ctx.note(f"replay: unknown case kind {k!r}")
